@@ -13,8 +13,8 @@ import (
 )
 
 func init() {
-	props["C10"] = &propDef{run: runC10, explanation: "Partial (thin): the list algebra itself (insert-or-replace keeping order, set union/difference, RFC 6902 semantics, id uniqueness) is value-level and NOT decided. Decided statically: (T1) the action tables agree — keys of patch.actionConfig = case constants of patchvalidator.Validate = case constants of the composer's dispatch = the eight patch.Action constants, each composer case calls its own handler and anything else is an error; (E1) handler write-sets — the key/service/also-known-as handlers write exactly their own member of the working document, replace builds a fresh document with exactly the two members taken from the replace document's publicKeys/services, ietf-json-patch returns the library output re-parsed; (P1) ApplyPatches is a left fold: deep copy of the document parameter, then one loop over the patches parameter in index order threading the result, the final result returned; (X2) sibling decision skeletons — for every append/update site in a handler's loop, which collection is iterated (document vs patch value), which collection the membership set is built from, the polarity of the membership test and what is appended; the three remove-handlers, the two keyed add-handlers and add-also-known-as must each match the documented skeleton (this catches an inverted keep condition, a dropped replace branch, a wrong source collection). Every handler loop visits every element: the only way out of a top-level loop body is an error return (a break drops the remaining entries). RFC 6902 operations are a left fold of the library's Apply over the document bytes (nothing else produces the running bytes, every successful exit returns them), and the applying function refuses only what the library refuses or a copy of a value into itself. Every list handler writes the rebuilt list back into the document on every accepting path. The copy guard lets an operation through exactly when from has at least as many tokens as path (three orderings)."}
-	props["C14"] = &propDef{run: runC14, explanation: "Partial (thin): document→patches→document and bytes round trips are value-level and NOT decided. Decided statically: (X1) each of the eight patch constructors stores ActionKey = its action and exactly one value under actionConfig[action]; (G1) FromBytes succeeds only across GetAction and GetValue of the decoded patch; GetValue looks up actionConfig[own action] and requires that member; GetAction admits only string-typed actions present in actionConfig; (T1) PatchesFromDocument maps publicKey / service / alsoKnownAs to their constructors and every other member to one combined ietf-json-patch 'add /<name>', visits members in sorted order, and succeeds only for documents without an id; (P1) Bytes() serialises the receiver itself; (J1) in the functions reachable from PatchesFromDocument no list separator is written under a loop-index test while the elements are written conditionally (hand-assembled JSON). (K2) every JSON decode in the patch and document packages is a plain encoding/json.Unmarshal; (X3) the json-patch fold and closed-refusal rules of C10. (K3) format strings in pkg/patch are constants; the validator's duplicate test for also-known-as URIs compares the URI's own text. Every constructor stores its value with a generic-JSON dynamic type."}
+	props["C10"] = &propDef{run: runC10, explanation: "Partial (thin): the list algebra itself (insert-or-replace keeping order, set union/difference, RFC 6902 semantics, id uniqueness) is value-level and NOT decided. Decided statically: (T1) the action tables agree — keys of patch.actionConfig = case constants of patchvalidator.Validate = case constants of the composer's dispatch = the eight patch.Action constants, each composer case calls its own handler and anything else is an error; (E1) handler write-sets — the key/service/also-known-as handlers write exactly their own member of the working document, replace builds a fresh document with exactly the two members taken from the replace document's publicKeys/services, ietf-json-patch returns the library output re-parsed; (P1) ApplyPatches is a left fold: deep copy of the document parameter, then one loop over the patches parameter in index order threading the result, the final result returned; (X2) sibling decision skeletons — for every append/update site in a handler's loop, which collection is iterated (document vs patch value), which collection the membership set is built from, the polarity of the membership test and what is appended; the three remove-handlers, the two keyed add-handlers and add-also-known-as must each match the documented skeleton (this catches an inverted keep condition, a dropped replace branch, a wrong source collection). Every handler loop visits every element: the only way out of a top-level loop body is an error return (a break drops the remaining entries). RFC 6902 operations are a left fold of the library's Apply over the document bytes (nothing else produces the running bytes, every successful exit returns them), and the applying function refuses only what the library refuses or a copy of a value into itself. Every list handler writes the rebuilt list back into the document on every accepting path. The copy guard lets an operation through exactly when from has at least as many tokens as path (three orderings). Replace-by-id searches every index of the list."}
+	props["C14"] = &propDef{run: runC14, explanation: "Partial (thin): document→patches→document and bytes round trips are value-level and NOT decided. Decided statically: (X1) each of the eight patch constructors stores ActionKey = its action and exactly one value under actionConfig[action]; (G1) FromBytes succeeds only across GetAction and GetValue of the decoded patch; GetValue looks up actionConfig[own action] and requires that member; GetAction admits only string-typed actions present in actionConfig; (T1) PatchesFromDocument maps publicKey / service / alsoKnownAs to their constructors and every other member to one combined ietf-json-patch 'add /<name>', visits members in sorted order, and succeeds only for documents without an id; (P1) Bytes() serialises the receiver itself; (J1) in the functions reachable from PatchesFromDocument no list separator is written under a loop-index test while the elements are written conditionally (hand-assembled JSON). (K2) every JSON decode in the patch and document packages is a plain encoding/json.Unmarshal; (X3) the json-patch fold and closed-refusal rules of C10. (K3) format strings in pkg/patch are constants; the validator's duplicate test for also-known-as URIs compares the URI's own text. Every constructor stores its value with a generic-JSON dynamic type. A constructor's value is built with decoding and conversion only; the composer stores patch entries' objects as they are."}
 }
 
 func (c *Ctx) actionConsts() map[string]string {
@@ -36,7 +36,8 @@ func runC10(c *Ctx) {
 	sort.Strings(want)
 	c.Check("C10.T1", "action-constants", len(want) == 8, 0, fmt.Sprintf("patch.Action constants %v", want))
 	// ---- T1
-	ac := keysOf(c.globalMapLiteral(c.Global("patch", "actionConfig")))
+	acTable, _ := c.actionValueKeys()
+	ac := keysOf(acTable)
 	c.Check("C10.T1", "actionConfig-keys", eqStrs(ac, want), 0, fmt.Sprintf("actionConfig keys %v", ac))
 	pvV := c.Fn(pPV, "Validate")
 	apf := c.Fn(pComposer, "applyPatch")
@@ -216,7 +217,7 @@ func runC10(c *Ctx) {
 
 func runC14(c *Ctx) {
 	acts := c.actionConsts()
-	cfg := c.globalMapLiteral(c.Global("patch", "actionConfig"))
+	cfg, cfgFn := c.actionValueKeys()
 	ctor := map[string]string{"replace": "NewReplacePatch", "ietf-json-patch": "NewJSONPatch", "add-public-keys": "NewAddPublicKeysPatch", "remove-public-keys": "NewRemovePublicKeysPatch", "add-services": "NewAddServiceEndpointsPatch", "remove-services": "NewRemoveServiceEndpointsPatch", "add-also-known-as": "NewAddAlsoKnownAs", "remove-also-known-as": "NewRemoveAlsoKnownAs"}
 	// ---- X1
 	for a := range acts {
@@ -286,7 +287,7 @@ func runC14(c *Ctx) {
 			var foreign []string
 			for p := range ext {
 				switch p {
-				case "encoding/json", "fmt", "errors", "sort", "slices", "maps":
+				case "encoding/json", "fmt", "errors", "sort", "slices", "maps", "strconv":
 				default:
 					foreign = append(foreign, p)
 				}
@@ -367,15 +368,25 @@ func runC14(c *Ctx) {
 		for _, r := range successReturns(ga) {
 			gaRet = c.Path(r.Results[0], nil)
 		}
-		gaMember, _, gaN := c.Guard(ga, nil, &GCheck{Name: "actionConfig[returned action] ok", MatchOK: func(c *Ctx, v ssa.Value, env Env) bool {
-			lk, ok := v.(*ssa.Lookup)
-			return ok && c.Path(lk.X, env) == "global:patch.actionConfig" && c.Path(lk.Index, env) == gaRet
-		}}, nil)
+		// a lookup of the table: actionConfig[a] (comma-ok), or a call of the table function with a
+		cfgOK := func(name string, idx func(string) bool) *GCheck {
+			return &GCheck{Name: name, NoDescend: true, MatchOK: func(c *Ctx, v ssa.Value, env Env) bool {
+				lk, ok := v.(*ssa.Lookup)
+				return ok && c.Path(lk.X, env) == "global:patch.actionConfig" && idx(c.Path(lk.Index, env))
+			}, MatchCall: func(c *Ctx, call *ssa.Call, env Env) bool {
+				return cfgFn != nil && call.Call.StaticCallee() == cfgFn && len(call.Call.Args) == 1 && idx(c.Path(call.Call.Args[0], env))
+			}}
+		}
 		noOK := func(s string) string { return strings.ReplaceAll(s, "]#0", "]") }
-		cfgLookup := &GCheck{Name: "actionConfig[action] ok", MatchOK: func(c *Ctx, v ssa.Value, env Env) bool {
-			lk, ok := v.(*ssa.Lookup)
-			return ok && c.Path(lk.X, env) == "global:patch.actionConfig" && c.Path(lk.Index, env) == act
-		}}
+		// the value key of action a, as a path: the looked-up entry or the function's first result
+		isKeyOf := func(p, a string) bool {
+			if noOK(p) == "global:patch.actionConfig["+a+"]" {
+				return true
+			}
+			return cfgFn != nil && p == short(cfgFn.String())+"("+a+")#0"
+		}
+		gaMember, _, gaN := c.Guard(ga, nil, cfgOK("actionConfig[returned action] ok", pathIs(gaRet)), nil)
+		cfgLookup := cfgOK("actionConfig[action] ok", pathIs(act))
 		if gaMember && gaN > 0 {
 			c.CheckGuard("C14.G1", "GetValue:config-lookup", gv, nil, anyOf("actionConfig[action] ok, or the action is the one GetAction vouches for", cfgLookup, callTo("GetAction()", ga, pathIs("$0"))))
 		} else {
@@ -383,11 +394,12 @@ func runC14(c *Ctx) {
 		}
 		c.CheckGuard("C14.G1", "GetValue:member-present", gv, nil, &GCheck{Name: "patch[valueKey] ok", MatchOK: func(c *Ctx, v ssa.Value, env Env) bool {
 			lk, ok := v.(*ssa.Lookup)
-			return ok && c.Path(lk.X, env) == "$0" && noOK(c.Path(lk.Index, env)) == "global:patch.actionConfig["+act+"]"
+			return ok && c.Path(lk.X, env) == "$0" && isKeyOf(c.Path(lk.Index, env), act)
 		}})
 		okRet := true
 		for _, r := range successReturns(gv) {
-			if p := c.Path(r.Results[0], nil); !strings.HasSuffix(p, "]#0") || noOK(p) != "$0[global:patch.actionConfig["+act+"]]" {
+			p := c.Path(r.Results[0], nil)
+			if !strings.HasPrefix(p, "$0[") || !strings.HasSuffix(p, "]#0") || !isKeyOf(p[3:len(p)-3], act) {
 				okRet = false
 			}
 		}
@@ -397,10 +409,7 @@ func runC14(c *Ctx) {
 			lk, ok := v.(*ssa.Lookup)
 			return ok && c.Path(lk.X, env) == "$0" && c.Path(lk.Index, env) == `"action"`
 		}})
-		c.CheckGuard("C14.G1", "GetAction:supported", ga, nil, &GCheck{Name: "actionConfig[action] ok", MatchOK: func(c *Ctx, v ssa.Value, env Env) bool {
-			lk, ok := v.(*ssa.Lookup)
-			return ok && c.Path(lk.X, env) == "global:patch.actionConfig"
-		}})
+		c.CheckGuard("C14.G1", "GetAction:supported", ga, nil, cfgOK("actionConfig[action] ok", func(string) bool { return true }))
 	}
 	c.Min("C14.G1", 10)
 
@@ -1835,4 +1844,53 @@ func (c *Ctx) applyPatchesFoldRule(rule string) {
 			c.Check(rule, "deepCopy:decode-error-propagated", false, ap.Pos(), "no JSON round trip of the document found")
 		}
 	}
+}
+
+// actionValueKeys: the action -> value-key table of pkg/patch — the package-level map literal actionConfig, or a
+// function of the package from an Action to (Key, bool) that answers each case with constants. Returns the entries and
+// the function when the table is a function.
+func (c *Ctx) actionValueKeys() (map[string]string, *ssa.Function) {
+	if m := c.globalMapLiteral(c.Global("patch", "actionConfig")); len(m) > 0 {
+		return m, nil
+	}
+	for _, f := range c.Funcs {
+		if pkgPathOf(f) != modPkg+"patch" || f.Blocks == nil || len(f.Params) != 1 || typeShort(f.Params[0].Type()) != "patch.Action" {
+			continue
+		}
+		res := f.Signature.Results()
+		if res.Len() != 2 || typeShort(res.At(0).Type()) != "patch.Key" || !isBoolType(res.At(1).Type()) {
+			continue
+		}
+		out := map[string]string{}
+		for k, blk := range c.caseTable(f, nil, func(p string) bool { return p == "$0" }) {
+			for b := range reach(blk, nil) {
+				if r, ok := b.Instrs[len(b.Instrs)-1].(*ssa.Return); ok && blk.Dominates(b) && c.Path(r.Results[1], nil) == "true" {
+					out[unquote(k)] = unquote(c.Path(r.Results[0], nil))
+				}
+			}
+			if r, ok := blk.Instrs[len(blk.Instrs)-1].(*ssa.Return); ok && c.Path(r.Results[1], nil) == "true" {
+				out[unquote(k)] = unquote(c.Path(r.Results[0], nil))
+			}
+		}
+		// outside the cases the function says "not supported"
+		okDefault := true
+		for _, r := range returnsOf(f) {
+			if c.Path(r.Results[1], nil) == "true" {
+				in := false
+				for _, blk := range c.caseTable(f, nil, func(p string) bool { return p == "$0" }) {
+					if blk == r.Block() || blk.Dominates(r.Block()) {
+						in = true
+					}
+				}
+				if !in {
+					okDefault = false
+				}
+			}
+		}
+		if len(out) > 0 && okDefault {
+			c.Analysed(f)
+			return out, f
+		}
+	}
+	return nil, nil
 }
